@@ -17,7 +17,7 @@ for sd in sorted(os.listdir(root)):
     for fn in ('detection.txt', 'final.txt'):
         p = os.path.join(d, fn)
         if os.path.exists(p):
-            t = open(p).read()
+            t = open(p, errors='replace').read()
             txts.append(t)
             for c, rc in pat.findall(t):
                 res[c] = rc  # final.txt overrides
@@ -33,7 +33,7 @@ for sd in sorted(os.listdir(root)):
     if os.path.exists(mp):
         m = json.load(open(mp))
         first, rnd = m.get('status_at_first_run', ''), str(m.get('round', ''))
-    notes = open(os.path.join(d, 'notes.md')).read().strip().split('\n')
+    notes = open(os.path.join(d, 'notes.md'), errors='replace').read().strip().split('\n')
     title = next((l.strip('# ').strip() for l in notes if l.strip()), '')
     title = re.sub(r'^(C\d\d[ /-]*)?(change )?[AB][ :—–-]*', '', title, flags=re.I)[:105].replace('|', '/')
     rows.append((sd, rnd, title, base, demo, first, 'yes' if own in caught else 'no', ' '.join(caught) or '-', len(res)))
